@@ -24,7 +24,15 @@ def run(chk):
     r2 = json.load(open(resf))
     for v in r2["violations"] or []:
         chk.violation(v["sig"], v["desc"], dict(kind="c12-reject", detail=v))
+    # the wire side of a batch: every action of a multi request sits in the RegionAction of the region that owns its row and
+    # is followed (in the shared cell stream) by its own cells - otherwise a call is executed with another call's payload
+    import wirecontent
+    rc = wirecontent.run_content(chk)
+    for v in rc["violations"] or []:
+        if wirecontent.misrouted(v):
+            chk.violation("batch-path:" + v["sig"], v["desc"], dict(kind="c12-batch", detail=v))
     c07.fill(chk, res)
+    chk.cov["batch_path_operations_decoded"] = rc["distinct"]
     chk.cov["evaluations"] += r2["scenarios"]
     chk.cov["distinct_nontrivial"] += r2["distinct"]
     chk.cov["traces_validated_against_impl"] += r2["scenarios"]
